@@ -531,6 +531,17 @@ class Interp:
                 return l & r
             if isinstance(e.op, ast.BitOr):
                 return l | r
+            if isinstance(e.op, (ast.Mod, ast.FloorDiv, ast.Div, ast.Pow)) and not any(isinstance(x, (Obj, ClassRef)) for x in (l, r)):
+                try:
+                    if isinstance(e.op, ast.Mod):
+                        return l % r          # also str % args
+                    if isinstance(e.op, ast.FloorDiv):
+                        return l // r
+                    if isinstance(e.op, ast.Div):
+                        return l / r
+                    return l ** r
+                except (TypeError, ValueError, ZeroDivisionError, KeyError) as x:
+                    raise Raised(type(x).__name__, e)
         if isinstance(e, ast.Compare):
             left = self.ev(e.left, env)
             for op, c in zip(e.ops, e.comparators):
@@ -767,6 +778,14 @@ class Interp:
                 if len(args) > 2:
                     return args[2]
                 raise Raised('AttributeError', e)
+            if n == 'hash' and len(args) == 1:
+                def plain(v):
+                    return isinstance(v, (str, int, float, bool, type(None))) or (isinstance(v, (tuple, frozenset)) and all(plain(x) for x in v))
+                if plain(args[0]):
+                    return hash(args[0])
+                if isinstance(args[0], (list, dict, set)):
+                    raise Raised('TypeError', e)
+                raise AnalysisError(f'interpreter: `{ftxt}` of a stand-in is not modelled')
             if n in ('repr', 'abs', 'float', 'format', 'round', 'sum', 'ord', 'chr', 'reversed', 'frozenset') and not any(isinstance(a, Obj) for a in args):
                 try:
                     r_ = {'repr': repr, 'abs': abs, 'float': float, 'format': format, 'round': round, 'sum': sum, 'ord': ord, 'chr': chr,
